@@ -40,6 +40,18 @@ CHECKS = {
         technique=SYMEX,
         ref="4 C12",
     ),
+    "C13": dict(
+        text="Bounded: every fluent-API call history up to length 5 (quick) / 6 (thorough) over the complete Rule (15 symbols), LayerRule (15) and DiagramRule (4) vocabularies followed by assert_applies on every import relation over a 3-module tree, plus every single deletion / duplication / transposition of every complete chain: whenever an independent specification automaton classifies the history as rejected, incomplete or contradictory, the real outcome is an error and never PASS / AssertionError (z3 query 'exists history, relation: invalid and verdict' over the decision-tree summary; history steps are n-ary symbolic choices). All 12 shapes with an unknown / too-deep / never-matching name on subject side, object side or inside a batch, also on a level_limit graph, and undefined layers: 'exists relation: not an error' is unsat. 2^6 entry-point option combinations.",
+        note="Trusted: specification automata in vf/oracles/builders.py, SymDiGraph stub, z3. Histories whose object list precedes the subject but which are complete at assert time are not classified. The history dimension is an exhaustive walk driven by the symbolic executor; only the import relation is solver-quantified.",
+        technique=SYMEX,
+        ref="4 C13",
+    ),
+    "C16": dict(
+        text="Bounded: every LayeredArchitecture builder history up to length 7 (quick) / 9 (thorough) over {layer(2 names), containing_modules(str | list, 3 module names sharing characters), have_modules_with_names_matching, with_layer} and every LayerRule history of that length: a call raises ImproperlyConfigured exactly where the specification automaton rejects it, and accepted definitions render exactly what was supplied in order. CrossHair kernel: two layers with symbolic module-name strings (<= 3 chars) in str or list form: second call rejected iff names equal (Confirmed over all paths).",
+        note="Trusted: specification automata, CrossHair/z3. Histories are enumerated by the symbolic executor (degenerate); the string dimension is solver-quantified by the kernel.",
+        technique=SYMEX + "; " + XH,
+        ref="4 C16",
+    ),
 }
 
 NOT_YET = {}
